@@ -13,3 +13,5 @@ FUNCTIONS = ['uxarray.core.dataarray.UxDataArray.integrate@dims=n_face',
 STANDINS = ["integration"]
 ASSUMPTIONS = []
 EXPLANATION = ""
+LEVEL_TEXT = 'UxDataArray.integrate proved for nine concrete dims layouts with symbolic, independent element counts (n_node == n_face allowed): face-centred data -> weighted sum with the areas of the requested rule/order, dims/name/grid; everything else raises ValueError; values/linearity/Dataset variant bounded'
+LEVEL_NOTE = "einsum('i,...i') and compute_face_areas as uninterpreted functions; dims tuples enumerated (9 layouts)"
